@@ -120,10 +120,7 @@ impl SamplingConfig {
                 }
                 Ok((duration.as_nanos() / ULTRASOUND_PERIOD.as_nanos()) as _)
             }
-            SamplingConfig::FreqNearest(nearest) => Ok((ULTRASOUND_FREQ.hz() as f32
-                / nearest.0.hz())
-            .clamp(1.0, u16::MAX as f32)
-            .round() as u16),
+            SamplingConfig::FreqNearest(nearest) => Ok(nearest_division(nearest.0.hz())),
             SamplingConfig::PeriodNearest(nearest) => {
                 use crate::defined::ULTRASOUND_PERIOD;
 
@@ -142,6 +139,34 @@ impl SamplingConfig {
     /// The sampling period.
     pub fn period(&self) -> Result<std::time::Duration, SamplingConfigError> {
         Ok(crate::defined::ULTRASOUND_PERIOD * self.division()? as u32)
+    }
+}
+
+/// The division in `1..=u16::MAX` whose sampling frequency [`ULTRASOUND_FREQ`] / `division` is the nearest to `freq`.
+///
+/// NaN, zero and negative frequencies give the lowest sampling frequency.
+fn nearest_division(freq: f32) -> u16 {
+    // Every `f32` not less than 0.5 is an integer multiple of 2^-24,
+    // so the frequencies can be compared exactly in integers.
+    const SCALE_BITS: u32 = 24;
+    let base = ULTRASOUND_FREQ.hz() as u128;
+    let freq = freq as f64;
+    if freq.is_nan() || freq < 0.5 {
+        // NaN, or below the lowest sampling frequency `base / u16::MAX`
+        return u16::MAX;
+    }
+    if freq >= base as f64 {
+        return 1;
+    }
+    let f = (freq * (1u64 << SCALE_BITS) as f64) as u128;
+    let n = base << SCALE_BITS;
+    // n / (d + 1) < f <= n / d, unless clamped
+    let d = (n / f).clamp(1, u16::MAX as u128 - 1);
+    // `f` is nearer to `n / (d + 1)` than to `n / d` iff it is less than their mean
+    if 2 * f * d * (d + 1) < n * (2 * d + 1) {
+        (d + 1) as u16
+    } else {
+        d as u16
     }
 }
 
